@@ -16,7 +16,7 @@ TARGET = {
  'C12-m1': [('C12', 'utc_seek')], 'C12-m2': [('C12', None)],
  'C13-m1': [('C13', 'O2_user_data')], 'C13-m2': [('C13', 'O2_signal_def')],
  'C14-m1': [('C14', None)], 'C14-m2': [('C14', None)],
- 'C15-m1': [('C15', 'w4'), ('C15', 'w1')], 'C15-m2': [('C15', None)],
+ 'C15-m1': [('C15', 'w4'), ('C15', 'w1')], 'C15-m2': [('C15', 'O2_block')],
  'C16-m1': [('C16', 'w32'), ('C16', 'w64')], 'C16-m2': [('C16', 'REL_SUMMARY')],
  'C18-m1': [('C18', 'sw')], 'C18-m2': [('C18', 'hw')], 'C18-m3': [('C18', 'L7')],
  'C19-m1': [('C19', 'O2_rd_open')], 'C19-m2': [('C19', None)],
